@@ -485,6 +485,10 @@ func WriteComment(w *formatting.IndentedWriter, comment string) {
 
 func WriteDocstring(w *formatting.IndentedWriter, comment string) {
 	comment = strings.TrimSpace(comment)
+	// the comment becomes the body of a string literal: backslashes would start escape sequences
+	// (or escape the closing quotes) and a run of three quotes would end the literal
+	comment = strings.ReplaceAll(comment, "\\", "\\\\")
+	comment = strings.ReplaceAll(comment, "\"\"\"", "\\\"\\\"\\\"")
 	if strings.HasPrefix(comment, "\"") {
 		comment = " " + comment
 	}
